@@ -288,6 +288,10 @@ def families(tier='quick', seed=0):
             ('not (A or B) and C', ('and', ('not', ('or', ('id', 'A'), ('id', 'B'))), ('id', 'C')), abc),
             ('(A and B) or (A and C)', ('or', ('and', ('id', 'A'), ('id', 'B')), ('and', ('id', 'A'), ('id', 'C'))), abc),
             ('(A and B) or not A', ('or', ('and', ('id', 'A'), ('id', 'B')), ('not', ('id', 'A'))), ab),
+            ('not (A and (B and C and D))', ('not', ('and', ('id', 'A'), ('and', ('and', ('id', 'B'), ('id', 'C')), ('id', 'D')))),
+             {'A': A, 'B': B, 'C': C, 'D': M((K('k'), S('d')))}),
+            ('A and (B and C and D)', ('and', ('id', 'A'), ('and', ('and', ('id', 'B'), ('id', 'C')), ('id', 'D'))),
+             {'A': A, 'B': B, 'C': C, 'D': M((K('k'), S('d')))}),
             ('not A and not B and not C', ('and', ('and', ('not', ('id', 'A')), ('not', ('id', 'B'))), ('not', ('id', 'C'))), abc)):
         add('condition', nm, {'idents': ids, 'cond': cond})
     # negation over one multi-entry mapping, both written orders (conjunction order is observable under not)
